@@ -127,6 +127,7 @@ pub struct Case {
     pub desc: Descriptor<Key>,
     pub kind: &'static str,
     pub ms_dump: Vec<(String, Vec<u8>)>, // per leaf: prefix dump, script bytes
+    pub exts: Vec<String>,                // per leaf: the library's ExtData (ext::ext_str), read by the C09 driver
     pub keys: Vec<usize>,
     pub abs: Vec<u32>,
     pub rel: Vec<u32>,
@@ -151,6 +152,7 @@ pub fn make_case(w: &World, seed: u64, kind_sel: u64, depth: u32, sane: bool) ->
     let mut abs = Vec::new();
     let mut rel = Vec::new();
     let mut dumps = Vec::new();
+    let mut exts = Vec::new();
     let mut internal = None;
     if kind_sel % 13 >= 10 {
         let i = (seed % 6) as usize;
@@ -161,7 +163,7 @@ pub fn make_case(w: &World, seed: u64, kind_sel: u64, depth: u32, sane: bool) ->
             11 => (Descriptor::new_wpkh(k).ok()?, "wpkh"),
             _ => (Descriptor::new_sh_wpkh(k).ok()?, "shwpkh"),
         };
-        return Some(Case { desc, kind, ms_dump: vec![], keys, abs, rel, internal: None });
+        return Some(Case { desc, kind, ms_dump: vec![], exts: vec![], keys, abs, rel, internal: None });
     }
     let (desc, kind): (Descriptor<Key>, &'static str) = match kind_sel % 5 {
         0 | 1 => {
@@ -170,6 +172,7 @@ pub fn make_case(w: &World, seed: u64, kind_sel: u64, depth: u32, sane: bool) ->
             collect_keys(w, &m, &mut keys);
             collect_locks(&m, &mut abs, &mut rel);
             dumps.push((dump_str(w, &m.node), m.encode().into_bytes()));
+            exts.push(crate::ext::ext_str(&m.ext));
             if kind_sel % 5 == 0 {
                 (Descriptor::new_wsh(m).ok()?, "wsh")
             } else {
@@ -182,6 +185,7 @@ pub fn make_case(w: &World, seed: u64, kind_sel: u64, depth: u32, sane: bool) ->
             collect_keys(w, &m, &mut keys);
             collect_locks(&m, &mut abs, &mut rel);
             dumps.push((dump_str(w, &m.node), m.encode().into_bytes()));
+            exts.push(crate::ext::ext_str(&m.ext));
             (Descriptor::new_sh(m).ok()?, "sh")
         }
         3 => {
@@ -190,6 +194,7 @@ pub fn make_case(w: &World, seed: u64, kind_sel: u64, depth: u32, sane: bool) ->
             collect_keys(w, &m, &mut keys);
             collect_locks(&m, &mut abs, &mut rel);
             dumps.push((dump_str(w, &m.node), m.encode().into_bytes()));
+            exts.push(crate::ext::ext_str(&m.ext));
             (Descriptor::new_bare(m).ok()?, "bare")
         }
         _ => {
@@ -201,6 +206,7 @@ pub fn make_case(w: &World, seed: u64, kind_sel: u64, depth: u32, sane: bool) ->
                 collect_keys(w, &m, &mut keys);
                 collect_locks(&m, &mut abs, &mut rel);
                 dumps.push((dump_str(w, &m.node), m.encode().into_bytes()));
+                exts.push(crate::ext::ext_str(&m.ext));
                 leaves.push(m);
             }
             let tree = match leaves.len() {
@@ -224,10 +230,10 @@ pub fn make_case(w: &World, seed: u64, kind_sel: u64, depth: u32, sane: bool) ->
             (Descriptor::new_tr(w.key(5, true), Some(tree)).ok()?, "tr")
         }
     };
-    Some(Case { desc, kind, ms_dump: dumps, keys, abs, rel, internal })
+    Some(Case { desc, kind, ms_dump: dumps, exts, keys, abs, rel, internal })
 }
 
-fn ecdsa_sig(w: &World, i: usize, msg: Message) -> bitcoin::ecdsa::Signature {
+pub fn ecdsa_sig(w: &World, i: usize, msg: Message) -> bitcoin::ecdsa::Signature {
     let sig = w.secp.sign_ecdsa(&msg, &w.sks[i]);
     bitcoin::ecdsa::Signature { signature: sig, sighash_type: EcdsaSighashType::All }
 }
@@ -237,7 +243,7 @@ pub struct TxEnv {
     pub sequence: Option<u32>,
 }
 
-fn lock_envs(c: &Case, rng: &mut Rng) -> Vec<TxEnv> {
+pub fn lock_envs(c: &Case, rng: &mut Rng) -> Vec<TxEnv> {
     let mut v = vec![TxEnv { lock_time: None, sequence: None }];
     if c.abs.is_empty() && c.rel.is_empty() {
         return v;
@@ -342,10 +348,8 @@ pub fn run(args: &[String]) {
     println!("DONE sat");
 }
 
-fn emit_case(w: &World, c: &Case, env: &TxEnv, id: u64, sane: bool, rng: &mut Rng, out: &mut String) {
-    let spk = c.desc.script_pubkey();
-    let value = Amount::from_sat(100_000);
-    let prevout = TxOut { value, script_pubkey: spk.clone() };
+/// The spending transaction of a case under a lock environment (one input, one output).
+pub fn spend_tx(env: &TxEnv) -> (Transaction, u32, u32) {
     let lock = env.lock_time.unwrap_or(0);
     let seq = env.sequence.unwrap_or(if env.lock_time.is_some() { 0xffff_fffe } else { 0xffff_ffff });
     let tx = Transaction {
@@ -359,26 +363,34 @@ fn emit_case(w: &World, c: &Case, env: &TxEnv, id: u64, sane: bool, rng: &mut Rn
         }],
         output: vec![TxOut { value: Amount::from_sat(90_000), script_pubkey: ScriptBuf::new() }],
     };
-    writeln!(out, "CASE {} {} sane={}", id, c.kind, sane as u8).unwrap();
-    writeln!(out, "DESC {}", c.desc).unwrap();
-    for (d, sbytes) in c.ms_dump.iter() {
-        writeln!(out, "MS {}", d).unwrap();
-        writeln!(out, "SCRIPT {}", hex(sbytes)).unwrap();
-    }
-    writeln!(out, "SPK {}", hex(spk.as_bytes())).unwrap();
-    writeln!(out, "TX 2 {} {}", lock, seq).unwrap();
-    writeln!(
-        out,
-        "LOCKS {} {}",
-        env.lock_time.map(|x| x.to_string()).unwrap_or("-".into()),
-        env.sequence.map(|x| x.to_string()).unwrap_or("-".into())
-    )
-    .unwrap();
-    // signatures
+    (tx, lock, seq)
+}
+
+/// All signatures a case can use, over the real sighash of `tx`.
+pub struct Sigs {
+    pub ecdsa: BTreeMap<usize, bitcoin::ecdsa::Signature>,
+    pub tapleaf: BTreeMap<(usize, TapLeafHash), bitcoin::taproot::Signature>,
+    pub tapkey: Option<bitcoin::taproot::Signature>,
+    pub cbmap: Option<BTreeMap<ControlBlock, (ScriptBuf, LeafVersion)>>,
+}
+
+/// Sign with every key of the case. `signer` produces the ECDSA signature (the `sat` engine
+/// uses plain RFC6979 signing; the `ext` engine grinds to the maximal encoded length).
+/// HASH / SIGK lines for the driver are appended to `out`.
+pub fn sign_case(
+    w: &World,
+    c: &Case,
+    tx: &Transaction,
+    value: Amount,
+    spk: &ScriptBuf,
+    signer: &dyn Fn(&World, usize, Message) -> bitcoin::ecdsa::Signature,
+    out: &mut String,
+) -> Sigs {
+    let prevout = TxOut { value, script_pubkey: spk.clone() };
     let mut ecdsa = BTreeMap::new();
     let mut tapleaf = BTreeMap::new();
     let mut tapkey = None;
-    let mut cache = SighashCache::new(&tx);
+    let mut cache = SighashCache::new(tx);
     let mut cbmap_store = None;
     match c.kind {
         "wsh" | "shwsh" => {
@@ -386,7 +398,7 @@ fn emit_case(w: &World, c: &Case, env: &TxEnv, id: u64, sane: bool, rng: &mut Rn
             let h = cache.p2wsh_signature_hash(0, &ws, value, EcdsaSighashType::All).unwrap();
             let msg = Message::from_digest(h.to_byte_array());
             for &i in c.keys.iter() {
-                ecdsa.insert(i, ecdsa_sig(w, i, msg));
+                ecdsa.insert(i, signer(w, i, msg));
             }
             writeln!(out, "HASH sha256 {} {}", hex(ws.as_bytes()), hex(sha256::Hash::hash(ws.as_bytes()).as_byte_array())).unwrap();
             if c.kind == "shwsh" {
@@ -417,7 +429,7 @@ fn emit_case(w: &World, c: &Case, env: &TxEnv, id: u64, sane: bool, rng: &mut Rn
             let h = cache.legacy_signature_hash(0, &sc, EcdsaSighashType::All.to_u32()).unwrap();
             let msg = Message::from_digest(h.to_byte_array());
             for &i in c.keys.iter() {
-                ecdsa.insert(i, ecdsa_sig(w, i, msg));
+                ecdsa.insert(i, signer(w, i, msg));
             }
             if c.kind == "sh" {
                 writeln!(out, "HASH hash160 {} {}", hex(sc.as_bytes()), hex(hash160::Hash::hash(sc.as_bytes()).as_byte_array())).unwrap();
@@ -457,13 +469,11 @@ fn emit_case(w: &World, c: &Case, env: &TxEnv, id: u64, sane: bool, rng: &mut Rn
             }
         }
     }
-    for (i, sig) in ecdsa.iter() {
-        writeln!(out, "SIG {} {}", i, hex(&sig.to_vec())).unwrap();
-    }
-    for ((i, lh), sig) in tapleaf.iter() {
-        writeln!(out, "SIGL {} {} {}", i, hex(lh.as_byte_array()), hex(&sig.to_vec())).unwrap();
-    }
-    // asset subsets
+    Sigs { ecdsa, tapleaf, tapkey, cbmap: cbmap_store }
+}
+
+/// Key subsets tried for a case: all subsets up to 4 keys, otherwise all / none / 14 random.
+pub fn key_masks(c: &Case, rng: &mut Rng) -> Vec<u32> {
     let nk = c.keys.len();
     let mut masks: Vec<u32> = Vec::new();
     if nk <= 4 {
@@ -490,6 +500,41 @@ fn emit_case(w: &World, c: &Case, env: &TxEnv, id: u64, sane: bool, rng: &mut Rn
             masks.push(m);
         }
     }
+    masks
+}
+
+fn emit_case(w: &World, c: &Case, env: &TxEnv, id: u64, sane: bool, rng: &mut Rng, out: &mut String) {
+    let spk = c.desc.script_pubkey();
+    let value = Amount::from_sat(100_000);
+    let (tx, lock, seq) = spend_tx(env);
+    writeln!(out, "CASE {} {} sane={}", id, c.kind, sane as u8).unwrap();
+    writeln!(out, "DESC {}", c.desc).unwrap();
+    for (d, sbytes) in c.ms_dump.iter() {
+        writeln!(out, "MS {}", d).unwrap();
+        writeln!(out, "SCRIPT {}", hex(sbytes)).unwrap();
+    }
+    for e in c.exts.iter() {
+        writeln!(out, "EXT {}", e).unwrap();
+    }
+    writeln!(out, "SPK {}", hex(spk.as_bytes())).unwrap();
+    writeln!(out, "TX 2 {} {}", lock, seq).unwrap();
+    writeln!(
+        out,
+        "LOCKS {} {}",
+        env.lock_time.map(|x| x.to_string()).unwrap_or("-".into()),
+        env.sequence.map(|x| x.to_string()).unwrap_or("-".into())
+    )
+    .unwrap();
+    // signatures
+    let Sigs { ecdsa, tapleaf, tapkey, cbmap: cbmap_store } = sign_case(w, c, &tx, value, &spk, &ecdsa_sig, out);
+    for (i, sig) in ecdsa.iter() {
+        writeln!(out, "SIG {} {}", i, hex(&sig.to_vec())).unwrap();
+    }
+    for ((i, lh), sig) in tapleaf.iter() {
+        writeln!(out, "SIGL {} {} {}", i, hex(lh.as_byte_array()), hex(&sig.to_vec())).unwrap();
+    }
+    // asset subsets
+    let masks = key_masks(c, rng);
     let premasks: Vec<u32> = vec![(1 << N_PRE) - 1, 0, rng.below(1 << N_PRE) as u32];
     let secp = &w.secp;
     for &km in masks.iter() {
